@@ -310,9 +310,30 @@ func (e *Engine) parseType(s string, p *packages.Package) (types.Type, error) {
 	if s == "Int" {
 		return &RawSort{S: smt.Int}, nil
 	}
+	if strings.HasPrefix(s, "(") {
+		es, err := smt.ParseSExprs(s)
+		if err != nil || len(es) != 1 {
+			return nil, fmt.Errorf("bad SMT sort %q", s)
+		}
+		st, err := smt.SortFromSExpr(es[0])
+		if err != nil {
+			return nil, err
+		}
+		return sortType(st), nil
+	}
 	var pkg *types.Package
 	if p != nil {
 		pkg = p.Types
+	}
+	// pkg.Name: imports live in file scopes, which types.Eval does not see at NoPos
+	if i := strings.Index(s, "."); i > 0 && !strings.ContainsAny(s, "[]*( ") {
+		for _, q := range e.PkgByPath {
+			if q.Name == s[:i] {
+				if tn, ok := q.Types.Scope().Lookup(s[i+1:]).(*types.TypeName); ok {
+					return tn.Type(), nil
+				}
+			}
+		}
 	}
 	tv, err := types.Eval(e.fset(), pkg, 0, s)
 	if err != nil {
